@@ -376,6 +376,24 @@ theorem detachedRoot_mapGet (D : SlabID → DigestFn 4) (w : World) (p : SlabID)
     (h : w.mapGet p k = .ok (el, w')) (hx : DetachedRoot w x) : DetachedRoot w' x :=
   detachedRoot_of_conts_eq w w' x (C10W.worldOk'_mapGet D w p k el w' ctr H hh hk h).2.1 hx
 
+/-- `SetType` (through a current handle to any container, `x` included): no signature changes -/
+theorem detachedRoot_setType (D : SlabID → DigestFn 4) (w : World) (p : SlabID) (ty : Nat) (cx : Ctx) (w' : World)
+    (cx' : Ctx) (x : SlabID) (H : WorldOk' D w cx.ctr) (hh : HandleOk w p)
+    (h : w.setType p ty cx = .ok (w', cx')) (hx : DetachedRoot w x) : DetachedRoot w' x := by
+  have hs := setType_sig' H hh h
+  have hS : SigFrame w w' x := fun z _ => hs z
+  obtain ⟨c, hc⟩ := Option.isSome_iff_exists.mp hx.1
+  have hsx := hs x
+  rw [hc] at hsx
+  cases hc' : w'.cont? x with
+  | none => rw [hc'] at hsx; cases hsx
+  | some c' =>
+    rw [hc'] at hsx
+    simp only [Option.map_some, Option.some.injEq] at hsx
+    refine hx.of_frame hS (by rw [hc']; rfl) (fun c'' hc'' hm => ?_)
+    rw [hc'] at hc''; cases hc''
+    exact hx.2 x ⟨c, hc, by rw [← Cont.sig_pays hsx]; exact hm⟩
+
 /-! ### Non-vacuity, run A (`AtreeProofs/World/C11Scenario.lean`, T = 256)
 
 Root array `R`; array `X` INLINED in slot 0 of `R` (one value); `Array.Set R 0 Y` overwrites `X` by
